@@ -1,7 +1,7 @@
 //! Runs a plan on the executor instance monomorphised for its (shape, N, M).
 
 use crate::exec::{RunOut, World};
-use crate::payload::{SimKey, SimVal, ZKey, ZVal};
+use crate::payload::{PKey, PVal, SimKey, SimVal, ZKey, ZVal};
 use crate::plan::{Plan, Shape};
 
 type SK = SimKey<()>;
@@ -49,6 +49,11 @@ pub fn run_plan(p: &Plan) -> RunOut {
         (Shape::ZstVal, 8, 8) => go!(SK, ZVal, 8, 8),
         (Shape::ZstBoth, 3, 3) => go!(ZKey, ZVal, 3, 3),
         (Shape::ZstBoth, 16, 4) => go!(ZKey, ZVal, 16, 4),
+        (Shape::PlainKey, 2, 1) => go!(PKey, SV, 2, 1),
+        (Shape::PlainKey, 3, 3) => go!(PKey, SV, 3, 3),
+        (Shape::PlainKey, 8, 8) => go!(PKey, SV, 8, 8),
+        (Shape::PlainVal, 3, 5) => go!(SK, PVal, 3, 5),
+        (Shape::PlainVal, 8, 8) => go!(SK, PVal, 8, 8),
         (s, n, m) => panic!("no executor instance for shape {s:?} with capacities ({n}, {m})"),
     }
 }
